@@ -714,6 +714,10 @@ M('C14', 'c14-connection-reader-lock-dropped', 'openhtf/plugs/usb/adb_protocol.p
   'connection-level reader election removed: several threads read the transport')
 
 # ---------------------------------------------------------------- C12
+M('C12', 'c12-probe-not-serialized', 'openhtf/util/threads.py',
+  "    with self._probe_lock:\n      could_acquire = self._running_lock.acquire(False)\n      if could_acquire:\n        self._running_lock.release()\n        return False\n      return True",
+  "    if True:\n      could_acquire = self._running_lock.acquire(False)\n      if could_acquire:\n        self._running_lock.release()\n        return False\n      return True",
+  'two overlapping kill() calls see each other\'s probe of the running lock (F33 regression)')
 M('C12', 'c12-timeout-option-ignored', 'openhtf/core/phase_executor.py',
   "    if self._phase_desc.options.timeout_s is not None:\n      deadline = time.monotonic() + self._phase_desc.options.timeout_s",
   "    if self._phase_desc.options.timeout_s:\n      deadline = time.monotonic() + self._phase_desc.options.timeout_s",
